@@ -10,8 +10,8 @@ CONSTANTS
   BoolArgs <- T_BoolArgs
   PosArgs <- T_PosArgs
   Back = 2
-  AsFoundSetBits = TRUE
-  PosCount = "per_position"
+  AsFoundSetBits = FALSE
+  PosCount = "per_item"
 VIEW NoHist
 INVARIANT CountInv
 INVARIANT ReadInv
